@@ -19,13 +19,13 @@ chk("C03", "exploration", "runtime monitoring: label chain oracle + behavioural 
     "Multi-file histories (rotations everywhere, offsets around 2^31 and 2^32, per-file configuration) are streamed; labels are compared with the model and an independent chain rule, and a FRESH streamer is started at the end label of every delivered transaction: the master must find the position on an event boundary and the deliveries must equal the remaining transactions with identical contents and labels.",
     "The simulated master answers a dump at a non-boundary offset with ERR 1236 like a real server. When a rotate lies between two transactions the label checked is the rotate target (as the statement says); resume is checked behaviourally.", "§5 C03")
 chk("C04", "fault_enumeration", "runtime monitoring: exactly-once ledger over recorded attempt chains + dump-request oracle, faults injected at every packet index",
-    "For each small history every packet index x 17 packet fault kinds (incl. well-formed rows events with an undecodable cell), every transaction x {handler error, in-handler cancel}, mapper failures, x pacing {far-ahead, lock-step}, followed by 0..2 more failed attempts and a clean one, all on ONE streamer. The ledger demands that the handler accepts deliveries 0..T-1 exactly once and in order; the position oracle checks every COM_BINLOG_DUMP the master receives.",
+    "For each small history every packet index x 23 packet fault kinds (incl. well-formed rows events with an undecodable cell and header-only events that pass the validity test), every transaction x {handler error, in-handler cancel}, mapper failures, x pacing {far-ahead, lock-step}, followed by 0..2 more failed attempts and a clean one, all on ONE streamer. The ledger demands that the handler accepts deliveries 0..T-1 exactly once and in order; the position oracle checks every COM_BINLOG_DUMP the master receives.",
     "Accepted = handler returned nil. Persistent faults (in the store) are not used. Schedules are sampled (two pacings), fault points are enumerated.", "§5 C04")
 chk("C05", "fault_enumeration", "runtime monitoring: quiescent-stuck rule on goroutine dumps, leftover-goroutine and socket monitors, handler guard, schedule perturbation through a slow user-supplied logger, " + RACE,
     "Stop cause x stop point (every packet index) x reader state (observed: waiting for the network / holding an event) x handler {fast, slow, blocked} under -race with GOMAXPROCS 1/2/4/16. Monitors: Stream and first/second Error() under the quiescent-stuck rule (two goroutine-dump samples 600 ms apart, all library goroutines parked on channel operations or on a socket the master will never write), library goroutines after quiescence, client socket Close, handler in-flight/streamActive guard, every race-detector report classified by the innermost library frames of both stacks.",
     "Bounded time is decided as not-stuck-at-quiescence (safety restatement). Race freedom = no detector report on these executions. Error() is only called after Stream returned. The race between the driver's Close and the reader is a recorded known finding (known_findings.txt).", "§5 C05")
 chk("C06", "fault_enumeration", "runtime monitoring: return-value oracle (three implications of the statement) over the enumerated stop scenarios",
-    "The C05 scenario family plus ERR packets with arbitrary code/message: (i) a handler/decode/table-lookup failure the parser reached => Stream != nil; (ii) Stream == nil and Error() == nil => the cause was cancellation or EOF; (iii) Stream == nil after ERR(code,msg) => msg is contained in Error(). Error() is called before any harness-side cancel, immediately or after quiescence.",
+    "The C05 scenario family plus ERR packets with arbitrary code/message: (i) a handler/decode/table-lookup failure the parser reached => Stream != nil; (ii) Stream == nil and Error() == nil => the cause was cancellation or EOF; (iii) Stream == nil after ERR(code,msg) => msg is contained in Error(). Error() is called immediately or after quiescence; in a third of the runs the caller cancels its context between Stream's return and Error() (what ended the stream does not change by that); plus streams ended by the master before a near context deadline with Error() asked after the deadline.",
     "Only the implications of the statement are demanded (nothing about the other direction). When cancel and a master-side failure are both in flight either outcome is accepted.", "§5 C06")
 chk("C07", "exploration", "runtime monitoring: command-log oracle on the simulated master (every COM_QUERY / COM_BINLOG_DUMP decoded)",
     "For server ids incl. >= 2^31, file names of 1..255 bytes (UTF-8, spaces, dots), offsets 4..2^32-1 and sequences of 1..4 attempts with SetBinlogPosition or the stored position: SET @master_binlog_checksum precedes the dump, exactly one blocking dump per connection and one connection per Stream, with the configured server id, file bytes and uint32 offset; after a complete stream the next attempt requests the stored resume position.",
@@ -59,7 +59,7 @@ chk("C16", "exploration", "runtime monitoring: differential monitor on header ac
     "Status variables are only emitted in the server's order; Q_CATALOG (code 2) never emitted.", "§5 C16")
 chk("C17", "fault_enumeration", "runtime monitoring: reference-predicate monitor on IsValid/accessors + gate-rejected packet injected at every packet index with resume oracle",
     "IsValid vs `len>=19 && le32(buf[9:13])==len` on structured classes (lengths 0..64 exhaustive), random buffers, every generated event truncated at every length and extended; accepted buffers must survive every header accessor. Streamer half: a gate-rejected packet at every index => Stream != nil, no panic, deliveries = model prefix, next attempt resumes at the last accepted commit boundary and delivers the rest.",
-    "Packets that pass the gate but have a malformed body are outside the property and are not injected.", "§5 C17")
+    "Packets that pass the gate although their body is garbage (header-only events, random and 0xff bodies) are streamed too; of them only this is demanded: no panic, and if the stream ends with an error, nothing partial was delivered and the next attempt resumes at the last accepted commit boundary (garbage that happens to decode is an event like any other).", "§5 C17")
 chk("C18", "exploration", "runtime monitoring: executable sequential model (set of (sid,gno) pairs) + immutability snapshots, exhaustive small window",
     "1 SID x all 2^8 subsets of window 1..8 x all adds, all 256^2 pairs for Contains/Equal, 2 SIDs x window 4; random wide sets and add sequences; sets created via SID block, the flavor parser (verif hook) and AddGTID chains; String() canonical; every earlier set unchanged.",
     "Only canonical inputs and sets derived from them.", "§5 C18")
